@@ -134,6 +134,12 @@ def station_histories(ctx, hist):
                 ds["efth"] = (("time", "site", "freq", "dir"), station_efth(cv))
             elif a == "call_other":
                 swan_text(ds, lons=[10.0, 11.0, 12.0, 13.0], lats=[0.0, 0.0, 0.0, 0.0])      # an earlier write: nothing of it may survive
+                # ANOTHER dataset (stations in [-180,180]) queried at this dataset's own station arrays: an operation on another object
+                try:
+                    station_ds(1).spec.sel(ds.lon.values, ds.lat.values, method="nearest", tolerance=400.0)
+                    station_ds(1).spec.sel(ds.lon.values, ds.lat.values, method="idw", tolerance=400.0)
+                except Exception:  # noqa
+                    pass
                 ds.spec.sel([9.0], [5.5], method="nearest", tolerance=5.0)
                 try:
                     ds.spec.sel([-130.0, -100.0], [20.0, 40.0], method="bbox", tolerance=0.0)     # a box written in [-180,180]
